@@ -602,7 +602,7 @@ func (w *worker) cliOp(kind string, set *sharedSet) (class string) {
 			if w.r.IntN(2) == 0 {
 				hc = httphelper.DefaultHTTPClient
 			}
-			_, err = client.Discover(ctxBG, opIssuer, hc, frontBase+"/redirect"+oidc.DiscoveryEndpoint)
+			_, err = client.Discover(ctxBG, opIssuer, hc, redirBase+oidc.DiscoveryEndpoint)
 		}
 	})
 	switch {
